@@ -436,6 +436,20 @@ func runC15(c C15Case, o *run.Obs) error {
 			}
 		}
 	}
+	// ... also when both handles share a tiny cache from which other traffic has evicted whatever opening them left there
+	if tiny, _ := core.MakeCache("tiny1"); tiny != nil {
+		a, err1 := wNew.Load(newSR, nil, tiny, false)
+		b, err2 := wNew.Load(newSR, nil, tiny, false)
+		if err1 == nil && err2 == nil {
+			if third, err := w.Load(oldSR, nil, tiny, false); err == nil {
+				_ = w.Check(third) // reads the whole old version through the same one-slot cache
+			}
+			loads, err := countingDiff(wNew, a.M, b.M, false)
+			if err == nil && (loads[0] != 0 || loads[1] != 0 || loads[2] != 0) {
+				return fmt.Errorf("%s: diffing a version with itself (two handles sharing a one-slot cache that other reads have turned over) loaded %d (DiffIter) / %d (DiffLinks) / %d (StartDiff+NextEntry) nodes, expected none", desc, loads[0], loads[1], loads[2])
+			}
+		}
+	}
 	neverLoaded := shared - 0
 	o.NonTrivial = d >= 1 && shared >= 10 && li < shared
 	if c.Big > 0 {
